@@ -70,32 +70,32 @@ func lost(format string, a ...interface{}) {
 
 // Ctx is the loaded program plus resolved anchors.
 type Ctx struct {
-	Root  string
-	Tier  string
-	Tags  string
-	Arch  string
-	Fset  *token.FileSet
-	Pkgs  []*packages.Package
-	Lib   *packages.Package
-	CLI   *packages.Package
-	Prog  *ssa.Program
-	SLib  *ssa.Package
-	SCLI  *ssa.Package
-	cache map[string]*RuleResult
-	lits  []*ast.CompositeLit
-	gwCache map[*ssa.Global]bool
-	bce     map[string]bool
-	powerCache *powerSrc
-	lexPrims [3]*ssa.Function
-	scopeMemo map[*ssa.Function]map[string]bool
-	expandDepth int
+	Root             string
+	Tier             string
+	Tags             string
+	Arch             string
+	Fset             *token.FileSet
+	Pkgs             []*packages.Package
+	Lib              *packages.Package
+	CLI              *packages.Package
+	Prog             *ssa.Program
+	SLib             *ssa.Package
+	SCLI             *ssa.Package
+	cache            map[string]*RuleResult
+	lits             []*ast.CompositeLit
+	gwCache          map[*ssa.Global]bool
+	bce              map[string]bool
+	powerCache       *powerSrc
+	lexPrims         [3]*ssa.Function
+	scopeMemo        map[*ssa.Function]map[string]bool
+	expandDepth      int
 	writesParserMemo map[*ssa.Function]bool
 	tokFlowMemo      map[*ssa.Function]*tokFlow
-	tableDone  bool
-	bceErr  error
-	subst   map[*ssa.Parameter]ssa.Value
-	helperSites map[*ssa.Function][]*ssa.Call
-	evIndex map[ssa.Instruction][2]int // obligations decided by the abstract interpreter, per instruction
+	tableDone        bool
+	bceErr           error
+	subst            map[*ssa.Parameter]ssa.Value
+	helperSites      map[*ssa.Function][]*ssa.Call
+	evIndex          map[ssa.Instruction][2]int // obligations decided by the abstract interpreter, per instruction
 
 	A *Anchors
 
